@@ -25,6 +25,7 @@ enum FMode { FM_DEFINE, FM_COLL, FM_INDEP };
 struct MFile {
     bool open = false; std::string path; int format = 1; int mode = FM_DEFINE; bool readonly = false; bool fresh = true; // fresh: created and never enddef'ed
     bool in_redef = false;
+    bool first_layout = false; long long ed[4] = {0, 0, 0, 0};   // the current layout was computed by the first enddef of a file created in this session, with these __enddef arguments (alignment oracle)
     std::vector<MDim> dims; std::vector<MVar> vars; std::vector<MAtt> gatts;
     long long numrecs = 0; bool fill = false;
     std::vector<MRank> ranks;
